@@ -95,6 +95,8 @@ class CallMixin:
                     self.use_class(kk)
                 guards.append(z3.Or(*[smt.cls_of(Val.r(obj)) == kk.cid for kk in groups[key][1]]))
             key = keys[self.choose(guards)]
+            if len(groups[key][1]) == 1:
+                self.set_class(obj, groups[key][1][0], exact=True)
         else:
             key = next(iter(groups))
         lk = groups[key][0]
@@ -139,7 +141,7 @@ class CallMixin:
         t = smt.tag_of(v)
         declared = name in self.declared_attrs(c)
         ft_spec = self.field_type(c, name)
-        if ft_spec is not None and t is None and self.is_initial_attr_read(v):
+        if ft_spec is not None and t is None and (self.is_initial_attr_read(v) or smt.static_id(obj) is None):
             self.apply_field_type(v, ft_spec)
         if t is not None and t != 'absent':
             return v
